@@ -3,6 +3,7 @@ package c02
 import (
 	"fmt"
 	"math/rand"
+	"os"
 	"strings"
 )
 
@@ -43,25 +44,54 @@ func counterFloors(tier string) map[string]int64 {
 	if tier == "thorough" {
 		k = 20
 	}
+	// about 40 % of the smallest value observed over the calibration seeds (quick tier)
 	return map[string]int64{
-		"docs_multipage":           800 * k,
-		"docs_with_split_flow":     700 * k,
-		"page_breaks_in_flows":     4000 * k,
-		"page_breaks_inside_words": 30 * k,
-		"draws_matched":            40000 * k,
-		"chars_conserved":          200000 * k,
-		"subflows_cell":            1500 * k,
-		"flows_split_cell":         100 * k,
-		"subflows_float":           150 * k,
-		"subflows_abs":             50 * k,
-		"hdr_occurrences":          200 * k,
-		"hdr_repeated_groups":      40 * k,
-		"fixed_occurrences":        100 * k,
-		"list_items":               1000 * k,
-		"list_items_split":         60 * k,
-		"hidden_textboxes":         100 * k,
-		"anchors_checked":          2000 * k,
-		"engine_gotext":            50 * k,
+		"docs_multipage":           600 * k,
+		"docs_with_split_flow":     560 * k,
+		"page_breaks_in_flows":     6400 * k,
+		"page_breaks_inside_words": 1100 * k,
+		"draws_matched":            42000 * k,
+		"chars_conserved":          390000 * k,
+		"subflows_cell":            3000 * k,
+		"flows_split_cell":         590 * k,
+		"subflows_float":           120 * k,
+		"subflows_abs":             110 * k,
+		"subflows_caption":         100 * k,
+		"hdr_occurrences":          330 * k,
+		"hdr_repeated_groups":      80 * k,
+		"fixed_occurrences":        800 * k,
+		"running_occurrences":      500 * k,
+		"list_items":               900 * k,
+		"list_items_split":         340 * k,
+		"hidden_textboxes":         1200 * k,
+		"anchors_checked":          2500 * k,
+		"engine_gotext":            35 * k,
+		"feat_stacking_opacity":    130 * k,
+		"feat_stacking_zindex":     200 * k,
+		"feat_safe_float":          50 * k,
+		"feat_plain_table":         90 * k,
+	}
+}
+
+// Generator switches for the defects that have a small repair (findings/C02/proposed-fixes.diff):
+// set to true once the fix is committed in /repo, so that the combination is generated again.
+// C02_ALLOW=fixedpush,emptygroup,gotextws (development only) turns them on to validate a repair.
+var (
+	allowFixedAnywhere   = false // F-C02-fixed-duplicated-after-push
+	allowEmptyRowGroup   = false // F-C02-fixed-layout-empty-first-group
+	allowGotextPreserved = false // F-C02-gotext-preserved-space-text-not-cut
+)
+
+func init() {
+	for _, k := range strings.Split(os.Getenv("C02_ALLOW"), ",") {
+		switch k {
+		case "fixedpush":
+			allowFixedAnywhere = true
+		case "emptygroup":
+			allowEmptyRowGroup = true
+		case "gotextws":
+			allowGotextPreserved = true
+		}
 	}
 }
 
@@ -285,7 +315,8 @@ func (g *gen) inlineContent(n int) {
 		case x < 0.19 && g.inInl < 2 && g.depth < 5:
 			g.inlineBlock()
 		// a float is never the child of an inline box (finding float-in-inline-box-duplicated)
-		case x < 0.205 && g.oofOK && !g.inHide && !g.inHdr && g.inInl == 0:
+		// ... nor part of the inline content of a float / absolute box (finding word-lost-before-nested-float)
+		case x < 0.205 && g.oofOK && !g.inHide && !g.inHdr && g.inInl == 0 && g.inOOF == 0:
 			g.float(true)
 		case x < 0.215 && g.oofOK && !g.inHide && !g.inHdr && g.inInl < 2:
 			g.abs(true)
@@ -555,7 +586,7 @@ func (g *gen) blockStyle(allowBreaks bool) []string {
 		st = append(st, "line-height:"+g.pick("1", "1.5", "2", "3"))
 		g.f("line_height_change")
 	}
-	if g.chance(0.05) && !g.gotext {
+	if g.chance(0.05) && (!g.gotext || allowGotextPreserved) {
 		v := g.pick("pre-wrap", "pre-line", "nowrap", "pre")
 		st = append(st, "white-space:"+v)
 		g.f("white_space_" + v)
@@ -628,7 +659,7 @@ func (g *gen) block() {
 
 func (g *gen) paragraph() {
 	tag := paraTags[g.r.Intn(len(paraTags))]
-	if tag == "pre" && g.gotext {
+	if tag == "pre" && g.gotext && !allowGotextPreserved {
 		tag = "p"
 	}
 	if tag == "h2" || tag == "h3" || tag == "blockquote" || tag == "p" || tag == "pre" {
@@ -685,7 +716,7 @@ func (g *gen) list() {
 	st := g.blockStyle(true)
 	// the list style type is always explicit, so the expected marker text needs no UA style sheet
 	lstype := g.pick("disc", "disc", "circle", "square", "decimal", "decimal", "lower-alpha", "upper-roman", "none")
-	if g.gotext {
+	if g.gotext && !allowGotextPreserved {
 		// markers are pre-wrap text: a wrapped marker hits finding gotext-preserved-space
 		lstype = "none"
 	}
@@ -824,6 +855,14 @@ func (g *gen) table() {
 		g.sb.WriteString("</caption>")
 		g.f("caption")
 	}
+	// In paged documents a header / footer group that does not fit on a page together with some row
+	// content is dropped by design (finding hdr-dropped): general tables get such groups only in
+	// tall documents; paged documents get them through plainTable, which bounds their height.
+	hasHead := g.single && g.chance(0.4)
+	hasFoot := g.single && g.chance(0.3)
+	// a cell split by a forced break inside it makes its row as high as the page, and the groups
+	// are then dropped on that page: no forced break inside the cells of a table with groups
+	cellNoBreak := hasHead || hasFoot
 	perCellV := 2*3 + 2*6 + 6
 	group := func(tag string, nrows int, hdr bool) {
 		gid := ""
@@ -831,6 +870,9 @@ func (g *gen) table() {
 			gid = g.newID("g")
 		}
 		var gst []string
+		if allowEmptyRowGroup && !hdr && g.chance(0.1) {
+			g.sb.WriteString("<tbody></tbody>")
+		}
 		g.sb.WriteString("<" + tag + attrs(gid, gst) + ">")
 		if hdr {
 			f := g.enter("hdr", gid, false)
@@ -876,9 +918,12 @@ func (g *gen) table() {
 				g.sb.WriteString("<" + ctag + span + attrs(cid, cst) + ">")
 				g.enter("cell", cid, true)
 				g.lineBreaks += 2
+				saveNB := g.noBreak
+				g.noBreak = g.noBreak || cellNoBreak
 				if g.chance(0.93) {
 					g.cellContent()
 				}
+				g.noBreak = saveNB
 				g.leave()
 				g.sb.WriteString("</" + ctag + ">")
 			}
@@ -890,11 +935,6 @@ func (g *gen) table() {
 		}
 		g.sb.WriteString("</" + tag + ">")
 	}
-	// In paged documents a header / footer group that does not fit on a page together with some row
-	// content is dropped by design (finding hdr-dropped): general tables get such groups only in
-	// tall documents; paged documents get them through plainTable, which bounds their height.
-	hasHead := g.single && g.chance(0.4)
-	hasFoot := g.single && g.chance(0.3)
 	if hasHead {
 		g.f("thead")
 		group("thead", 1+g.r.Intn(2), true)
@@ -1027,7 +1067,7 @@ func Generate(r *rand.Rand, i int, tier string) Input {
 		// In a paged document the fixed box is the first child of <body>: content holding a fixed
 		// box that is pushed to the next page leaves a stale copy behind (finding
 		// fixed-duplicated-after-push), which cannot happen to the first box of the first page.
-		if !fixedDone && ((g.single && r.Intn(20) == 0) || (!g.single && k == 0 && r.Intn(8) == 0)) && g.fixed() {
+		if !fixedDone && (((g.single || allowFixedAnywhere) && r.Intn(20) == 0) || (!g.single && k == 0 && r.Intn(8) == 0)) && g.fixed() {
 			fixedDone = true
 			continue
 		}
